@@ -8,7 +8,8 @@ use std::sync::atomic::{AtomicU64, AtomicUsize, Ordering};
 use std::sync::{mpsc, Arc, Mutex};
 use std::time::{Duration, Instant};
 
-use crate::exec::{Case, Stats, Violation};
+use crate::anycase::AnyCase as Case;
+use crate::exec::{Stats, Violation};
 use crate::findings;
 use crate::json::J;
 use crate::props::Tier;
@@ -78,6 +79,8 @@ pub fn unit_count(prop: &str, tier: Tier) -> u64 {
         "C12" => (60_000, 6_000_000),
         "C17" => (20_000, 1_500_000),
         "C18" => (40_000, 3_000_000),
+        "C19" => (400_000, 40_000_000),
+        "C14" => (200_000, 20_000_000),
         "C20" => (20_000, 1_500_000),
         _ => (10_000, 500_000),
     };
@@ -148,10 +151,10 @@ pub fn eval_in_child(case: &Case, secs: u64) -> Option<Violation> {
     let (out, ok, timed_out) = run_limited(cmd, secs);
     let _ = std::fs::remove_file(&path);
     if timed_out {
-        return Some(Violation { class: "HANG".into(), msg: format!("no result within {secs} s of wall-clock time (a loop that never polls the termination condition)"), op_index: case.ops.len().saturating_sub(1) });
+        return Some(Violation { class: "HANG".into(), msg: format!("no result within {secs} s of wall-clock time (a loop that never polls the termination condition)"), op_index: case.as_lib().map(|c| c.ops.len().saturating_sub(1)).unwrap_or(0) });
     }
     if !ok {
-        return Some(Violation { class: "CRASH".into(), msg: "the process died (abort / stack overflow / double panic)".into(), op_index: case.ops.len().saturating_sub(1) });
+        return Some(Violation { class: "CRASH".into(), msg: "the process died (abort / stack overflow / double panic)".into(), op_index: case.as_lib().map(|c| c.ops.len().saturating_sub(1)).unwrap_or(0) });
     }
     for line in out.lines() {
         if let Some(rest) = line.strip_prefix("VIOL ") {
@@ -351,14 +354,14 @@ fn shrink_in_child(case: &Case, v: &Violation) -> (Case, Violation, u64) {
 
 fn shrink_with_children(case: &Case, v: &Violation) -> (Case, Violation, u64) {
     let mut check = |c: &Case| eval_in_child(c, 5);
-    let (c, v2, e) = crate::shrink::shrink(case, v, &mut check, 60);
+    let (c, v2, e) = crate::shrink::shrink_any(case, v, &mut check, 60);
     (c, v2, e as u64)
 }
 
 fn write_replay(prop: &str, seed: u64, unit: u64, original: &Case, case: &Case, v: &Violation, evals: u64) -> String {
     let dir = format!("{}/replays", verif_root());
     let _ = std::fs::create_dir_all(&dir);
-    let trace = if v.class == "HANG" || v.class == "CRASH" { 0 } else { crate::props::check_case_trace(case) };
+    let trace = if v.class == "HANG" || v.class == "CRASH" { 0 } else { case.check().trace };
     let id = crate::rng::fnv(case.to_json().to_string().as_bytes());
     let path = format!("{dir}/{prop}-{id:016x}.json");
     let mut fields = vec![
